@@ -5,6 +5,7 @@ package rw
 
 import (
 	"bytes"
+	"errors"
 	"encoding/json"
 	"io"
 	"os"
@@ -24,6 +25,8 @@ func init() {
 	logrus.SetOutput(io.Discard)
 	logrus.SetLevel(logrus.PanicLevel)
 }
+
+var errTrailing = errors.New("data after the end of the JSON document")
 
 const SPDX3 = formats.Format("text/spdx+json;version=3.0")
 
@@ -51,6 +54,15 @@ func Write(d *sbom.Document, f formats.Format, indent int) ([]byte, error) {
 	}
 	err := w.WriteStreamWithOptions(d, nopCloser{&buf}, o)
 	return buf.Bytes(), err
+}
+
+// WriteFile serializes d as f into the file at path through the writer's file entry point.
+func WriteFile(d *sbom.Document, f formats.Format, indent int, path string) error {
+	o := &writer.Options{Format: f, SerializeOptions: &native.SerializeOptions{}}
+	if indent >= 0 {
+		o.RenderOptions = &native.RenderOptions{Indent: indent}
+	}
+	return w.WriteFileWithOptions(d, path, o)
 }
 
 // Read parses with format auto-detection.
@@ -85,6 +97,10 @@ func NormalizeJSON(b []byte) (string, error) {
 	dec.UseNumber()
 	if err := dec.Decode(&v); err != nil {
 		return "", err
+	}
+	// the output is ONE JSON document: anything but white space after it is not ignored
+	if _, err := dec.Token(); err != io.EOF {
+		return "", errTrailing
 	}
 	v = norm(v)
 	out, err := json.Marshal(v)
